@@ -307,7 +307,7 @@ fn cmd_check(args: &[String]) -> i32 {
     let _ = std::fs::remove_file(&stop_path);
     let spawn = |w: u64, first_index: u64, count: u64, restarts: u32| -> Option<Slot> {
         let cur = scratch.join(format!("w{}.cur", w));
-        let checked = matches!(std::env::var("RSIM_CHECKED_EXE"), Ok(ref p) if prop == "C04" && w % 2 == 1 && std::path::Path::new(p).exists());
+        let checked = matches!(std::env::var("RSIM_CHECKED_EXE"), Ok(ref p) if w % 2 == 1 && std::path::Path::new(p).exists());
         let wexe = if checked { std::path::PathBuf::from(std::env::var("RSIM_CHECKED_EXE").unwrap()) } else { exe.clone() };
         let start = w + first_index * jobs;
         let mut child = Command::new(&wexe)
@@ -497,10 +497,16 @@ fn cmd_check(args: &[String]) -> i32 {
                 } else if hung {
                     let s = format!("{}|watchdog|no_progress", prop);
                     let v = json!({"property": prop, "class": "watchdog", "detail": format!("run {} made no progress for {} s (operation does not terminate)", run, plan.watchdog_s), "op_index": 0});
+                    if slot.checked && !found.contains_key(&s) {
+                        found_checked.insert(s.clone());
+                    }
                     found.entry(s).or_insert((run, v));
                 } else {
                     let s = format!("{}|process_killed|signal{}", prop, sig);
-                    let v = json!({"property": prop, "class": "process_killed", "detail": format!("worker process died with signal {} (exit {:?}) during run {}", sig, status.code(), run), "op_index": 0});
+                    let v = json!({"property": prop, "class": "process_killed", "detail": format!("worker process ({} profile) died with signal {} (exit {:?}) during run {}", if slot.checked { "checked" } else { "release" }, sig, status.code(), run), "op_index": 0});
+                    if slot.checked && !found.contains_key(&s) {
+                        found_checked.insert(s.clone());
+                    }
                     found.entry(s).or_insert((run, v));
                 }
                 // continue behind the run that killed the worker
